@@ -188,3 +188,60 @@ func keysSorted(doc []byte) bool {
 		}
 	}
 }
+
+// HostileJSON: the JSON decoders of the wire and storage types return an error on documents whose values have the
+// wrong shape (a number where a string is expected, a one-character string, null, an object ...) and never panic.
+func HostileJSON(cdc amino, g *Gen, rep Reporter) {
+	r := g.R
+	name, val, dst := g.Value()
+	var bz []byte
+	var err error
+	if p := catch(func() { bz, err = cdc.MarshalJSON(val) }); p != nil || err != nil {
+		return
+	}
+	// positions of value tokens: strings (after a colon or inside arrays) and numbers
+	type span struct{ a, b int }
+	var spans []span
+	for i := 0; i < len(bz); i++ {
+		if bz[i] == '"' {
+			j := i + 1
+			for j < len(bz) && bz[j] != '"' {
+				if bz[j] == '\\' {
+					j++
+				}
+				j++
+			}
+			if j < len(bz) {
+				// a value, not a key: the next non-space byte is not ':'
+				k := j + 1
+				for k < len(bz) && (bz[k] == ' ' || bz[k] == '\n') {
+					k++
+				}
+				if k >= len(bz) || bz[k] != ':' {
+					spans = append(spans, span{i, j + 1})
+				}
+			}
+			i = j
+		}
+	}
+	if len(spans) == 0 {
+		return
+	}
+	sp := spans[r.Intn(len(spans))]
+	repl := []string{`7`, `"7"`, `""`, `null`, `"zz"`, `{}`, `[]`, `true`, `-1`, `1e400`, `"0"`, `"x"`, `0`, `"00"`, `[1]`, `{"a":1}`, `"\u0000"`}[r.Intn(17)]
+	mut := append(append(append([]byte{}, bz[:sp.a]...), repl...), bz[sp.b:]...)
+	rep.Count("c20.hostile.json_documents", 1)
+	d := dst()
+	if p := catch(func() { err = cdc.UnmarshalJSON(mut, d) }); p != nil {
+		rep.Violate("C20", "json-decoder-panic/"+name, fmt.Sprintf("decoding a %s from %s (value %s replaced by %s) panicked: %v", name, mut, bz[sp.a:sp.b], repl, p))
+		return
+	}
+	if err != nil {
+		rep.Count("c20.hostile.json_rejected", 1)
+	}
+}
+
+type amino interface {
+	MarshalJSON(o interface{}) ([]byte, error)
+	UnmarshalJSON(bz []byte, ptr interface{}) error
+}
